@@ -321,9 +321,9 @@ class Pipeline:
                     try:
                         raise KeyError('unrelated error the caller is handling')
                     except KeyError:
-                        cls.run(cfg, sig_stop=False, stop_evt=ev, prop_exit=n.get('prop_exit'), obey_exit=n.get('obey_exit'))
+                        cls.run(cfg, sig_stop=False, stop_evt=ev, prop_exit=n.get('prop_exit'), obey_exit=n.get('obey_exit'), loop_exc=n.get('loop_exc'))
                 else:
-                    cls.run(cfg, sig_stop=False, stop_evt=ev, prop_exit=n.get('prop_exit'), obey_exit=n.get('obey_exit'))
+                    cls.run(cfg, sig_stop=False, stop_evt=ev, prop_exit=n.get('prop_exit'), obey_exit=n.get('obey_exit'), loop_exc=n.get('loop_exc'))
                 self.ends[key] = {'how': 'returned', 'exc': None, 't': self.world.now}
             except simnet.SimKilled:
                 self.ends[key] = {'how': 'killed', 'exc': None, 't': self.world.now}
